@@ -31,9 +31,10 @@ def assign_slots(units: list[int], mode: str, seed: int) -> tuple[dict[int, int]
 
 def put_view(f: SimFile, off: int, view: View, s: int, e: int) -> None:
     """Store the guest view of sectors [s, e) at file offset off (zeros stay holes)."""
+    shift = getattr(view, "shift", 0)  # extent-relative views keep absolute pattern identity
     for a, b, v in view.segs(s, e):
         if v != "Z":
-            f.write_pat(off + (a - s) * 512, v[1], v[2], a, b - a)
+            f.write_pat(off + (a - s) * 512, v[1], v[2], a + shift, b - a)
 
 
 def put_poison(f: SimFile, off: int, nbytes: int, tag: int) -> None:
